@@ -303,10 +303,20 @@ class ExprMixin:
             return SV(ty.mk(z3.Store(ty.arr(v.t), i2, upd.t), n), ty)
         raise Unsupported(f"update of {ty}")
 
+    def note_mutation(self, st, root, node):
+        """An in-place modification through the name `root`: an obligation when `root` is a parameter the contract
+        declares immutable and the name still denotes the caller's object (it was not assigned to)."""
+        cur = st.env.get(root)
+        if isinstance(cur, Alias):
+            return self.note_mutation(st, cur.root, node)
+        if self.cur is not None and root in self.cur.immutable and root not in st.rebound and not self.in_ghost:
+            self.emit(st, z3.BoolVal(False), "frame", node, f"argument-{root}-not-modified")
+
     def write_path(self, st, root, sels, newv, node=None):
         cur = st.env.get(root)
         if isinstance(cur, Alias):
             return self.write_path(st, cur.root, cur.sels + list(sels), newv, node)
+
         if not sels:
             if cur is not None and isinstance(cur, SV) and cur.ty != newv.ty:
                 try:
@@ -1097,13 +1107,44 @@ class ExprMixin:
         y = z3.Const("y!sc", body.ty.sort())
         return SV(z3.Lambda([y], z3.Exists(vs, z3.And(guard, *conds, body.t == y))), sty)
 
+    def dictcomp_computed_key(self, node, g, vs, guard, binds, st, want):
+        """{key(c): val(c) for c in ...}: a fresh map R with  key(c) in R for every c of the domain, and every entry of R
+        is (key(c), val(c)) for SOME c of the domain (when two elements share a key, one of them wins)."""
+        if len(vs) != 1:
+            raise Unsupported("dict comprehension over several variables")
+        v = vs[0]
+        with self.binding(binds):
+            self.qscope.append((vs, guard))
+            try:
+                conds = [self.truthy(self.ev(c, st)) for c in g.ifs]
+            finally:
+                self.qscope.pop()
+            full = z3.And(guard, *conds)
+            with self.guarded(full):
+                self.qscope.append((vs, full))
+                try:
+                    key = self.ev(node.key, st, want.key if isinstance(want, T.Map) else None)
+                    val = self.ev(node.value, st, want.val if isinstance(want, T.Map) else None)
+                finally:
+                    self.qscope.pop()
+        mty = T.Map(key.ty, val.ty)
+        r = fresh(mty, "dictcomp")
+        dom_, arr_ = mty.dom(r.t), mty.valarr(r.t)
+        st.assume(z3.ForAll([v], z3.Implies(full, z3.Select(dom_, key.t)), patterns=[key.t] if not z3.is_const(key.t) or True else []))
+        k = z3.Const(fresh_name("k"), key.ty.sort())
+        src = z3.Function(fresh_name("src"), key.ty.sort(), v.sort())
+        at = lambda t: z3.substitute(t, (v, src(k)))
+        st.assume(z3.ForAll([k], z3.Implies(z3.Select(dom_, k), z3.And(at(full), at(key.t) == k, z3.Select(arr_, k) == at(val.t))), patterns=[z3.Select(dom_, k)]))
+        self.used_models.add("dict comprehension with a computed key: every element contributes its key; every entry comes from some element")
+        return r
+
     def ev_DictComp(self, node, st, want):
         if len(node.generators) != 1:
             raise Unsupported("nested dict comprehension")
         g = node.generators[0]
         vs, guard, binds, dom = self.gen_domain(g, st)
         if not (isinstance(node.key, ast.Name) and len(vs) == 1 and node.key.id in binds and binds[node.key.id].t.eq(vs[0])):
-            raise Unsupported("dict comprehension whose key is not the iteration variable")
+            return self.dictcomp_computed_key(node, g, vs, guard, binds, st, want)
         if g.ifs:
             with self.binding(binds):
                 self.qscope.append((vs, guard))
